@@ -292,9 +292,19 @@ def run_C09(chk, with_proof=True):
             if rc is None:
                 chk.violation("runner-hang", "cgreen-runner did not terminate: %s" % " ".join(args), rp)
                 continue
-            # the property's oracle
-            want_exec, want_fail = [], False
+            # the property's oracle.  The command line is read as cgreen-runner documents it: an argument that is not an
+            # existing file is the pattern of the library before it, when that library has none yet - so a missing
+            # library written right after a library without a pattern is that library's pattern
+            eff = []
             for lib, pat in pairs:
+                if lib.startswith("missing") and eff and eff[-1][1] is None and not eff[-1][0].startswith("missing"):
+                    eff[-1] = (eff[-1][0], lib)
+                    if pat is not None:
+                        eff.append((pat, None) if False else ("missing-pattern-" + pat, None))
+                else:
+                    eff.append((lib, pat))
+            want_exec, want_fail = [], False
+            for lib, pat in eff:
                 if lib.startswith("missing"):
                     want_fail = True
                     break
